@@ -160,7 +160,15 @@ def audit(prop: str, prop_modules: list[str]) -> dict:
     audit_file = os.path.join(LEAN, "DV", "Audit", f"{prop}.lean")
     src = "-- GENERATED by harness/common.py: axiom audit of the property theorems.\n"
     src += "".join(f"import {m}\n" for m in good_mods)
-    src += "open DV\nopen DV.Node\n" if any("NodeQ" in open(f).read() or "namespace DV.Node" in open(f).read() for f in lean_files_of(good_mods)) else "open DV\n"
+    spaces = ["DV"]
+    for f in lean_files_of(good_mods):
+        txt = open(f).read()
+        for ns in re.findall(r"^namespace (\S+)", txt, re.M):
+            if ns not in spaces:
+                spaces.append(ns)
+        if "NodeQ" in txt and "DV.Node" not in spaces:
+            spaces.append("DV.Node")
+    src += "".join(f"open {ns}\n" for ns in spaces)
     for mod, t in thms:
         if mod in good_mods:
             src += f"#print axioms {t}\n"
